@@ -18,7 +18,13 @@
 (*          the projected sample (order statistics + linear interpolation at index      *)
 (*          (n-1)(1-alpha), written out in the driver); all in units of 1/scale (own scale per record).        *)
 (*   above = #{z > off + eps}, atleast = #{z >= off - eps} (eps: see FractionBeyond).   *)
-(* alpha = a / b exactly.                                                               *)
+(* alpha = a / b exactly when it is handed over as a Python float / np.float64 (dyadic =  *)
+(* FALSE; the round-off of the double nearest to a/b, 1e-17, is below everything measured). *)
+(* An alpha handed over as np.float32 IS the real number float(alpha) = m / 2^e, e up to 37 *)
+(* (dyadic = TRUE): a / b is only its nominal value, 100 * 2^e and m (n-1) do not fit 32     *)
+(* bit, so the driver evaluates floor / ceiling of alpha (n-1) and floor(100 / alpha) with   *)
+(* fractions.Fraction(float(alpha)) and supplies them as kmin, kmax, nref; cref is computed  *)
+(* in double precision from float(alpha) in either case.                                     *)
 EXTENDS Fix, Json, IOUtils, TLC
 
 TraceLog == ndJsonDeserialize(IOEnv.TRACE_FILE)
@@ -49,7 +55,16 @@ StepsOf(p, q, gap, step) == IF IsSteps(Adv(p, q), gap + 1, step) THEN gap + 1 EL
 (* the projections use the grid direction, accurate to ~1e-15 rad).  A swapped quantile      *)
 (* level, a shifted index, truncated or centred-and-rounded projections move the offset by   *)
 (* far more.                                                                                  *)
-OffTol(r, cref) == 2 + (Abs(cref) \div 1000000) + (r.lev \div 1000000)
+(* r.lev is clamped at 2e9 units.  Below the clamp (the vertices are within 20 times the      *)
+(* largest offset of the record from the origin: no cancellation) all of these errors are    *)
+(* below 1 unit and the tolerance is 2 units + 1e-8 |cref| + 1e-8 lev: 1 - alpha formed in    *)
+(* single precision (off by up to 3e-8) moves the quantile by 3e-8 / (density of the          *)
+(* projection at the quantile), i.e. 1e-7 .. 1e-4 of the offset.  At the clamp (a polygon     *)
+(* whose vertices are far from the origin compared with the offsets of its tangents, e.g.     *)
+(* one sample point at 1e17) the tolerance stays 1e-6.                                        *)
+LevClamp == 2000000000
+OffTol(r, cref) == IF r.lev >= LevClamp THEN 2 + (Abs(cref) \div 1000000) + (r.lev \div 1000000)
+                   ELSE 2 + (Abs(cref) \div 100000000) + (r.lev \div 100000000)
 
 (* clo <= cref <= chi brackets the reference over direction round-off (+-2e-15 rad); the     *)
 (* three coincide unless the sample has points at ~1e15 times the offset                     *)
@@ -65,8 +80,9 @@ CeilDiv(x, y) == (x + y - 1) \div y
 (* driver counts with a margin eps = 1e-12 (lev + |p_i|) per point (above: beyond by more   *)
 (* than eps, atleast: not below by more than eps), which covers the measurement error     *)
 (* and can only make the clause weaker, never wrong.                                      *)
-FractionOk(above, atleast, r) == /\ above <= CeilDiv(r.a * (r.n - 1), r.b)
-                                 /\ atleast >= (r.a * (r.n - 1)) \div r.b
+KMax(r) == IF r.dyadic THEN r.kmax ELSE CeilDiv(r.a * (r.n - 1), r.b)     \* ceil(alpha (n-1))
+KMin(r) == IF r.dyadic THEN r.kmin ELSE (r.a * (r.n - 1)) \div r.b        \* floor(alpha (n-1))
+FractionOk(above, atleast, r) == above <= KMax(r) /\ atleast >= KMin(r)
 
 EdgeClauses(r) == <<
     <<"StepExact", StepOk(r.phi, r.phin, r.gap, r.step)>>,
@@ -94,12 +110,15 @@ FullCircle(r) ==
     /\ \A j \in 1..NLong(r) : StepOk(r.phis[j], r.phis[NextIdx(r, j)], r.gaps[j], r.step)
     /\ StepSum(r, 1) = 360 \div r.step
 
+(* n = int(100 / alpha) of the real number alpha *)
+NRef(r) == IF r.dyadic THEN r.nref ELSE (100 * r.b) \div r.a
+
 ContourClauses(r) ==
   IF r.exc # "" THEN << <<"UnexpectedException", FALSE>> >>
   ELSE IF ~r.finite THEN << <<"FiniteVertices", FALSE>> >>
   ELSE <<
     <<"FullCircleOnce", r.degenerate \/ FullCircle(r)>>,
-    <<"DefaultN", r.defaultn => r.nsample = (100 * r.b) \div r.a>>,
+    <<"DefaultN", r.defaultn => r.nsample = NRef(r)>>,
     <<"GivenN", r.givenn > 0 => r.nsample = r.givenn>>,
     <<"SampleKept", r.samplekept>>,
     <<"TwoColumns", r.ncol = 2>>
